@@ -34,6 +34,67 @@ CHECKS = {
                      "(CrashTrace.tla) checks each distinct outcome: opened, contents = a witness set of whole batches in order containing "
                      "every sync-acknowledged batch; recovered DBs then run a KV-contract program.",
                 tech="TLA+ durability spec + exhaustive crash-point enumeration on the real code judged by TLC"),
+    "C05": dict(cat="model_checking", ref="5 C05",
+                text="ReadPath.tla (reader acquisition steps: sequence, buffers, version - against insert/publish, rotation, flush "
+                     "install/drop) is model-checked as coded, and with each pair of steps swapped it must fail. Concurrent histories of "
+                     "the real DB (2-4 writers of cross-key batches incl. merged groups and oversize batches, point/snapshot/iterator "
+                     "readers, a transaction user, a compactor; GOMAXPROCS 1/2/4/16) are validated by TLC (ConcTrace.tla): publications "
+                     "bracketed by hook lines are the only state changes; each publication lies between call and return of its writers; "
+                     "each read (a whole snapshot or iterator scan = one cut) is explained by ONE state whose index lies between the "
+                     "publications completed at its call and begun at its return; a client's reads never go back.",
+                tech="TLA+ read-path spec + TLC validation of concurrent histories with publication-bracketing hook events"),
+    "C09": dict(cat="model_checking", ref="5 C09",
+                text="Locks.tla (write lock, commit lock, transaction mutex, flush goroutine with command/ack, Close, fault budget) is "
+                     "model-checked: NoLeak, NoStuck and <>(all calls returned) under fairness for the repaired protocol; the three lock "
+                     "leaks as they were coded must be found. Real code: the fault-position enumeration of C08, where a call that has not "
+                     "returned 10 s after the faults stopped is the violation (with goroutine stacks); concurrent histories with Close "
+                     "racing the clients, with storage faults, and with both, validated by TLC (ConcTrace.tla): at quiescence nothing is "
+                     "pending, a finished call holds neither the write lock nor the commit lock.",
+                tech="TLA+ lock-protocol spec with liveness + fault enumeration and concurrent histories judged by TLC"),
+    "C10": dict(cat="model_checking", ref="5 C10",
+                text="WriteProto.tla (select on merge/lock/error/close channels, merge loop, acknowledgements, hand-off, Close, persistent "
+                     "error holder) is model-checked: Mutex, ExactlyOne, NoOrphan, LockFreeAtEnd, termination. Concurrent histories of the "
+                     "real DB (2-6 writers with sizes below/above the merge limit, merge on/off, Close racing) with every write-path hook "
+                     "event are validated by TLC (ConcTrace.tla, which transcribes writeLocked's batch list): one lock holder; group = "
+                     "leader + merged writers identified by content; one journal record and one publication covering all members, synced "
+                     "if any member asked; acknowledgements = merged writers; each member's reply = the group's result; the lock is "
+                     "released or handed to exactly the writer that overflowed.",
+                tech="TLA+ channel-level protocol spec + TLC validation of write-path hook traces from concurrent runs"),
+    "C12": dict(cat="model_checking", ref="5 C12",
+                text="Journal.tla (journal.Writer fields and calls on lengths; Reader.Next/nextChunk/singleReader.Read transcribed as the "
+                     "resynchronisation rule; damage = cut + foreign tail + unreadable chunks) is model-checked exhaustively with a 16-byte "
+                     "block: layout laws, round trip, tolerant output = written records minus only records touching a damaged block, strict "
+                     "output = prefix then corruption error, nothing invented. TLC simulation of the same actions with the real 32 KiB block "
+                     "generates action sequences (block-end residue classes, multi-block and empty records, flush patterns, refused calls); "
+                     "the real Writer executes them and the real Reader (tolerant and strict, checksums on) reads the file truncated at every "
+                     "offset, with zero/garbage tails and byte flips in every chunk header and sampled payload bytes; every call and every "
+                     "damage trial is validated by TLC through JournalTrace.tla (layout equality, reader-rule equality, property monitors).",
+                tech="TLA+ framing spec + TLC-generated action sequences replayed on the real code + TLC trace validation"),
+    "C13": dict(cat="model_checking", ref="5 C13",
+                text="Table.tla (sorted list cut into blocks, one separator per block chosen anywhere in [last_i, first_i+1), filter oracle "
+                     "'added => may-contain', per-block damage, lookups as index seek/filter/block seek/fall-through, two-level range-sliced "
+                     "iterator) model-checked for every layout, separator choice and damaged set on <=5 keys/<=3 blocks: lookups = sorted-map "
+                     "oracle, moves = KV.tla cursor laws, OffsetOf monotone, damage => corruption-or-original; real table.Writer/Reader runs "
+                     "over an option matrix (comparers, block size, restart interval, snappy, bloom/base, cache, buffer pool, strict reader) "
+                     "with adversarial keys/values, lookups, OffsetOf, cursor walks and single-byte alterations of every checksummed block "
+                     "(every byte in thorough) validated line by line by TLC.",
+                tech="TLA+ table spec + TLC trace validation incl. exhaustive single-byte damage trials"),
+    "C14": dict(cat="model_checking", ref="5 C14",
+                text="MemDB.tla (ordered map, Len/Size/Free accounting as coded, live cursors, window rule for readers concurrent with the "
+                     "single writer) is model-checked through MemDBMC.tla against a model of memdb.go as coded on 3-4 keys, 3-4 writes, 1-2 "
+                     "readers; seeded sequential programs and concurrent histories (1 writer, 2-6 readers, Reset and reuse between epochs, 3 "
+                     "comparers) recorded on the real memdb are validated line by line by TLC through MemDBTrace.tla; the concurrent driver "
+                     "is also run under the race detector (reported, not deciding).",
+                tech="TLA+ contract + coded-structure refinement check in TLC + TLC trace validation of calls and invocation/response histories"),
+    "C15": dict(cat="model_checking", ref="5 C15",
+                text="IKey.tla (internal order = user order then packed number descending, lookup probe, iComparer's separator/successor "
+                     "acceptance rule over an abstract user-level answer) is model-checked exhaustively: strict total order over all triples, "
+                     "probe placement, a <= sep(a,b) < b and succ(b) >= b for every admissible user answer, index routing, plus a run of the "
+                     "unguarded rule that must fail. The REAL internal comparer is evaluated over 10 user comparers on the enumerated universe "
+                     "(len<=3 over {00,61,ff} x seq {0,1,2^56-1} x both kinds: all ordered pairs, separator/successor calls, probes) and on "
+                     "seeded universes of long random keys; every recorded answer is validated by TLC through IKeyTrace.tla, inequalities "
+                     "judged on the harness's reference order.",
+                tech="TLA+ order/shortening laws checked by TLC + exhaustive bounded conformance of the real iComparer by TLC trace validation"),
     "C06": dict(cat="model_checking", ref="5 C06",
                 text="LSM.tla (flush, compaction with level-0 closure / next-level overlap / drop rule / output cuts, snapshots) is "
                      "model-checked: the C06 laws of LSMLaws.tla (disjoint ordered levels, no empty file, recency across levels) and ReadOK "
